@@ -35,7 +35,14 @@ from . import ltl as L
 # =============================================================================
 # rendering to Scenic source
 # =============================================================================
-HEADER = "from simverif.userlib import tab, ev, evv, fault, val, Tok\n"
+HEADER = "from simverif.userlib import tab, ev, evv, fault, val, Tok, ftab, prop, fspec\n"
+
+_FTAB = False  # set per render(): conditions carry a fault point (C14)
+_MODE2D = False  # set per render(): program is compiled in 2D compatibility mode
+
+
+def _c(k, site):
+    return f"ftab({site!r}, {k})" if _FTAB else f"tab({k})"
 
 
 def _dur(n, unit):
@@ -62,7 +69,7 @@ def render_block(stmts, ind, out, in_beh):
         elif op == "waitfor":
             out.append(f"{pad}wait for {_dur(s[1], s[2])}")
         elif op == "waituntil":
-            out.append(f"{pad}wait until tab({s[1]})")
+            out.append(f"{pad}wait until {_c(s[1], 'waituntil')}")
         elif op == "do":
             calls = ", ".join(_call(n) for n in s[1])
             mod = s[2]
@@ -71,7 +78,7 @@ def render_block(stmts, ind, out, in_beh):
             elif mod[0] == "for":
                 out.append(f"{pad}do {calls} for {_dur(mod[1], mod[2])}")
             else:
-                out.append(f"{pad}do {calls} until tab({mod[1]})")
+                out.append(f"{pad}do {calls} until {_c(mod[1], 'until')}")
         elif op in ("choose", "shuffle"):
             if s[2]:
                 inner = "{" + ", ".join(f"{_call(n)}: {w}" for n, w in s[1]) + "}"
@@ -93,11 +100,11 @@ def render_block(stmts, ind, out, in_beh):
         elif op == "terminatesim":
             out.append(f"{pad}terminate simulation")
         elif op == "require":
-            out.append(f"{pad}require tab({s[1]})")
+            out.append(f"{pad}require {_c(s[1], 'require')}")
         elif op == "requireltl":
             out.append(f"{pad}require {L.render(s[1])}")
         elif op == "if":
-            out.append(f"{pad}if tab({s[1]}):")
+            out.append(f"{pad}if {_c(s[1], 'if')}:")
             render_block(s[2], ind + 1, out, in_beh)
             if s[3]:
                 out.append(f"{pad}else:")
@@ -112,12 +119,14 @@ def render_block(stmts, ind, out, in_beh):
             out.append(f"{pad}try:")
             render_block(s[1], ind + 1, out, in_beh)
             for k, hb in s[2]:
-                out.append(f"{pad}interrupt when tab({k}):")
+                out.append(f"{pad}interrupt when {_c(k, 'interrupt')}:")
                 render_block(hb, ind + 1, out, in_beh)
         elif op in ("abort", "break", "continue", "return"):
             out.append(pad + op)
         elif op == "override":
             out.append(f"{pad}override {s[1]} with {s[2]} {s[3]!r}")
+        elif op == "fault":
+            out.append(f"{pad}fault({s[1]!r})")
         else:
             raise ValueError(op)
 
@@ -129,28 +138,37 @@ def render_setup(stmts, ind, out, objpos):
         if op == "new":
             x, y = objpos[s[1]]
             beh = f", with behavior {_call(s[2])}" if s[2] else ""
-            extra = "".join(f", with {p} {v!r}" for p, v in (s[3] if len(s) > 3 else []))
-            out.append(f"{pad}{s[1]} = new Object at ({x}, {y}, 0), with name {s[1]!r}{beh}{extra}")
+            # property value: a constant, or ["raw", <Scenic expression>, <its value>]
+            extra = "".join(
+                f", with {p} {v[1] if isinstance(v, list) else repr(v)}"
+                for p, v in (s[3] if len(s) > 3 else [])
+            )
+            pos = f"({x}, {y})" if _MODE2D else f"({x}, {y}, 0)"
+            out.append(f"{pad}{s[1]} = new Object at {pos}, with name {s[1]!r}{beh}{extra}")
         elif op == "monitor":
             out.append(f"{pad}require monitor {_call(s[1])}")
         elif op == "termwhen":
-            out.append(f"{pad}terminate when evv('tw', tab({s[1]}))")
+            out.append(f"{pad}terminate when evv('tw', {_c(s[1], 'termwhen')})")
         elif op == "termsimwhen":
-            out.append(f"{pad}terminate simulation when evv('tsw', tab({s[1]}))")
+            out.append(f"{pad}terminate simulation when evv('tsw', {_c(s[1], 'termsimwhen')})")
         elif op == "termafter":
             out.append(f"{pad}terminate after {_dur(s[1], s[2])}")
         elif op == "ltl":
             out.append(f"{pad}require {L.render(s[1])}")
         elif op == "record":
-            out.append(f"{pad}record evv('rec:{s[1]}', tab({s[2]})) as {s[1]}")
+            out.append(f"{pad}record evv('rec:{s[1]}', {_c(s[2], 'record')}) as {s[1]}")
         elif op == "recordinitial":
             out.append(f"{pad}record initial evv('rec:{s[1]}', tab({s[2]})) as {s[1]}")
         elif op == "recordfinal":
             out.append(f"{pad}record final evv('rec:{s[1]}', tab({s[2]})) as {s[1]}")
         elif op == "require":
-            out.append(f"{pad}require tab({s[1]})")
+            out.append(f"{pad}require {_c(s[1], 'require')}")
         elif op == "override":
             out.append(f"{pad}override {s[1]} with {s[2]} {s[3]!r}")
+        elif op == "recordprop":
+            out.append(f"{pad}record prop({s[2]!r}, {s[3]!r}) as {s[1]}")
+        elif op == "fault":
+            out.append(f"{pad}fault({s[1]!r})")
         elif op == "ev":
             out.append(f"{pad}ev({s[1]!r})")
         else:
@@ -169,10 +187,13 @@ def _guard(k):
     # ("rej", k): a guard whose evaluation raises a rejection when table k is false
     if isinstance(k, (list, tuple)):
         return f"grej({k[1]})"
-    return f"tab({k})"
+    return _c(k, "guard")
 
 
 def render(prog):
+    global _FTAB, _MODE2D
+    _FTAB = bool(prog.get("ftab"))
+    _MODE2D = bool(prog.get("mode2D"))
     out = [HEADER.rstrip()]
     if prog.get("uses_grej"):
         out.append("from simverif.userlib import grej")
@@ -448,6 +469,8 @@ class Ref:
                 return op
             elif op == "override":
                 self.do_override(self.scenario_of(inst), s[1], s[2], s[3])
+            elif op == "fault":
+                pass  # fault points are inert in the reference
             else:
                 raise ValueError(op)
         return None
@@ -640,6 +663,10 @@ class Ref:
                 raise Reject("reject", S.name, "require in setup")
         elif op == "override":
             self.do_override(S, st[1], st[2], st[3])
+        elif op == "recordprop":
+            S.records.append((st[1], ("prop", st[2], st[3])))
+        elif op == "fault":
+            pass
         elif op == "ev":
             self.emit("ev", st[1])
         else:
@@ -652,7 +679,7 @@ class Ref:
         self.creator[uid] = S
         S.objvars[name] = uid
         for p, v in extra:
-            self.props[(uid, p)] = v
+            self.props[(uid, p)] = v[2] if isinstance(v, list) else v
         if beh:
             self.behavior_of[uid] = beh
             S.agents.append(uid)
@@ -664,7 +691,10 @@ class Ref:
     def do_override(self, S, obj, prop, value):
         uid = S.objvars[obj]
         old = self.props.get((uid, prop))
-        S.overrides.append((uid, prop, old))
+        if self.bugs.get("override_first_only") and any(o == uid for o, _, _ in S.overrides):
+            pass  # BUG MODEL: only the first override statement per object is remembered
+        else:
+            S.overrides.append((uid, prop, old))
         self.props[(uid, prop)] = value
         self.emit("override", f"{obj}.{prop}={value}")
 
@@ -807,6 +837,9 @@ class Ref:
 
     def eval_records(self, S, which, out):
         for name, k in getattr(S, which):
+            if isinstance(k, tuple):  # ("prop", object name, property)
+                out[name] = self.prop_lookup(k[1], k[2])
+                continue
             self.emit("ev", f"rec:{name}")
             out[name] = self.tab(k)
         for sub in S.subs:
@@ -814,6 +847,12 @@ class Ref:
             # next `do`; whether its records are still saved is not documented (pin)
             if sub.running or self.pins["stale_sub_records"]:
                 self.eval_records(sub, which, out)
+
+    def prop_lookup(self, name, p):
+        for uid in reversed(self.objects):
+            if self.oname[uid] == name:
+                return self.props.get((uid, p))
+        return None
 
     def run_monitors(self, S):
         reason = None
